@@ -59,6 +59,11 @@ def port_metadata(sugar_unit):
     return out
 
 
+class Prefix(str):
+    """key text that is the literal initialiser of a mutable char array (e.g. `char mapbuf[20] = "map "`):
+    the looked-up key starts with it"""
+
+
 def _resolve_literal(unit, e, depth=0):
     s = A.string_literal(e)
     if s is not None:
@@ -66,9 +71,37 @@ def _resolve_literal(unit, e, depth=0):
     e = A.strip_casts(e)
     if e.get("kind") == "DeclRefExpr" and depth < 3:
         d = unit.by_id.get(e["referencedDecl"]["id"])
-        if d is not None and d.get("kind") == "VarDecl" and A.kids(d) and ("const" in A.stype(d) or d.get("constexpr")):
-            return _resolve_literal(unit, A.kids(d)[-1], depth + 1)
+        if d is not None and d.get("kind") == "VarDecl" and A.kids(d):
+            st = A.stype(d)
+            if "const" in st or d.get("constexpr"):
+                return _resolve_literal(unit, A.kids(d)[-1], depth + 1)
+            if st.startswith("char[") or st.startswith("char ["):
+                lit = A.string_literal(A.kids(d)[-1])
+                if lit is not None:
+                    return Prefix(lit)
     return None
+
+
+def key_pattern(k):
+    """'map 3' -> 'map <n>', 'default 12' -> 'default <n>'"""
+    import re
+    return re.sub(r' \d+$', ' <n>', k)
+
+
+def all_emitted(meta_unit, sugar_unit):
+    """(set of exact keys, set of patterns, {key: [producer,...]})"""
+    prod = {}
+    for mac, kv in emitted_by_macro(meta_unit).items():
+        if mac in ("rMap", "rProp"):
+            continue     # generic: emit whatever key the user writes
+        for k, v in kv:
+            prod.setdefault(k, set()).add(mac)
+    for port, kv in port_metadata(sugar_unit).items():
+        for k, v in kv:
+            prod.setdefault(k, set()).add("port " + port.split(":")[0].split("#")[0])
+    exact = set(prod)
+    pats = {key_pattern(k) for k in prod}
+    return exact, pats, prod
 
 
 def lookups(unit, root):
